@@ -390,17 +390,32 @@ Qed.
 (* ---------------------------------------------------------------- *)
 (* matchUnwind with a two-valued callback is "some candidate satisfies it" *)
 
-Lemma unwind_ok (f : value -> bool) d p merge ym op :
+Lemma leaf_match_ok (f : value -> bool) op v :
+  (forall c, op c = Ok (f c)) -> leaf_match op v = Ok (existsb f (leaf_candidates v)).
+Proof.
+  intro H. unfold leaf_match, leaf_candidates.
+  destruct v; rewrite ?app_nil_l; cbn [existsb]; rewrite ?H, ?orb_false_r; try reflexivity.
+  rewrite (first_ok_ok f) by exact H. rewrite existsb_app. cbn [existsb]. rewrite orb_false_r. reflexivity.
+Qed.
+
+Lemma existsb_flat_map {A B} (f : B -> bool) (g : A -> list B) (l : list A) :
+  existsb f (flat_map g l) = existsb (fun a => existsb f (g a)) l.
+Proof. induction l as [|a l IH]; [reflexivity|]. simpl. rewrite existsb_app, IH. reflexivity. Qed.
+
+Lemma unwind_ok (f : value -> bool) d p ya op :
   (forall c, op c = Ok (f c)) ->
-  unwind d p merge ym op = Ok (existsb f (unwind_candidates d p merge ym)).
+  unwind d p ya op = Ok (existsb f (unwind_candidates d p ya)).
 Proof.
   intro H. unfold unwind, unwind_candidates.
-  destruct (All d p true merge) as [value multi].
-  destruct (negb multi || ym).
-  - rewrite H. destruct value; rewrite ?app_nil_l; simpl existsb; rewrite ?orb_false_r; try reflexivity.
-    rewrite (first_ok_ok f) by exact H. rewrite existsb_app. simpl. rewrite orb_false_r. reflexivity.
-  - destruct value; try reflexivity.
-    rewrite (first_ok_ok f) by exact H. rewrite app_nil_r, orb_false_r. reflexivity.
+  destruct (All d p true false) as [value multi].
+  destruct multi; [|apply leaf_match_ok; exact H].
+  assert (Hrest : (if ya then op value else Ok false) = Ok (existsb f (if ya then [value] else []))).
+  { destruct ya; [rewrite H; simpl; rewrite orb_false_r|]; reflexivity. }
+  rewrite Hrest, existsb_app.
+  destruct value; cbn [existsb]; try reflexivity.
+  rewrite (first_ok_ok (fun leaf => existsb f (leaf_candidates leaf)))
+    by (intro c; apply leaf_match_ok; exact H).
+  rewrite existsb_flat_map. reflexivity.
 Qed.
 
 Lemma is_true_ok b : is_true (Ok b) = b.
@@ -489,23 +504,34 @@ Qed.
 
 Theorem array_or_element d p op v arr :
   is_op p = false -> In op cmp_ops ->
-  All d p true true = (VArr arr, false) ->
+  All d p true false = (VArr arr, false) ->
   Match d [(p, VDoc [(op, v)])] =
   Ok (holds op (VArr arr) v || existsb (fun e => holds op e v) arr).
 Proof.
   intros Hp Hop HA. rewrite (comparison_candidates d p op v Hp Hop).
-  unfold candidates, unwind_candidates. rewrite HA. simpl negb. simpl orb.
+  unfold candidates, unwind_candidates, leaf_candidates. rewrite HA.
   rewrite existsb_app. simpl. rewrite orb_false_r, orb_comm. reflexivity.
+Qed.
+
+(* under fan-out every value found is treated like a directly addressed field *)
+Theorem fanout_leaves d p op v leaves :
+  is_op p = false -> In op cmp_ops ->
+  All d p true false = (VArr leaves, true) ->
+  Match d [(p, VDoc [(op, v)])] =
+  Ok (existsb (fun leaf => existsb (fun c => holds op c v) (leaf_candidates leaf)) leaves).
+Proof.
+  intros Hp Hop HA. rewrite (comparison_candidates d p op v Hp Hop).
+  unfold candidates, unwind_candidates. rewrite HA, app_nil_r, existsb_flat_map. reflexivity.
 Qed.
 
 (* and a non-array field is compared as it is *)
 Theorem scalar_field d p op v x :
   is_op p = false -> In op cmp_ops ->
-  All d p true true = (x, false) -> (forall a, x <> VArr a) ->
+  All d p true false = (x, false) -> (forall a, x <> VArr a) ->
   Match d [(p, VDoc [(op, v)])] = Ok (holds op x v).
 Proof.
   intros Hp Hop HA Hx. rewrite (comparison_candidates d p op v Hp Hop).
-  unfold candidates, unwind_candidates. rewrite HA. simpl negb. simpl orb.
+  unfold candidates, unwind_candidates, leaf_candidates. rewrite HA.
   destruct x; simpl; rewrite ?orb_false_r; try reflexivity. exfalso. eapply Hx. reflexivity.
 Qed.
 
